@@ -28,13 +28,14 @@ type c03File struct {
 func (f c03File) file() string { return f.Name + "." + f.Ext }
 
 type c03Layout struct {
-	Files []c03File `json:"files"`
-	Args  []string  `json:"args"` // CLI arguments after `-f json`
-	Note  string    `json:"note"`
+	Files  []c03File `json:"files"`
+	Args   []string  `json:"args"` // CLI arguments after `-f json`
+	Note   string    `json:"note"`
+	Subdir string    `json:"subdir,omitempty"` // files live in this sub-directory; bkl is invoked from its parent
 }
 
 func (l c03Layout) clone() c03Layout {
-	n := c03Layout{Args: append([]string{}, l.Args...), Note: l.Note}
+	n := c03Layout{Args: append([]string{}, l.Args...), Note: l.Note, Subdir: l.Subdir}
 	for _, f := range l.Files {
 		g := f
 		g.Docs = core.Clone(f.Docs).([]any)
@@ -480,6 +481,14 @@ func c03Deviations(l c03Layout) []c03Layout {
 			}
 		}
 	}
+	// invoked from another directory: parents are looked up next to the file, not in the working directory
+	if l.Subdir == "" {
+		for _, sd := range []string{"d", "v1.2.x"} {
+			n := l.clone()
+			n.Subdir = sd
+			add(n, "invoked from the parent of "+sd+"/")
+		}
+	}
 	// command-line deviations
 	{
 		n := l.clone()
@@ -552,6 +561,12 @@ func c03Layouts(depth int, baselines []c03Layout) []c03Layout {
 }
 
 func c03Materialise(dir string, l c03Layout) error {
+	if l.Subdir != "" {
+		dir = filepath.Join(dir, l.Subdir)
+		if err := os.MkdirAll(dir, 0o755); err != nil {
+			return err
+		}
+	}
 	for _, f := range l.Files {
 		p := filepath.Join(dir, f.file())
 		if f.LinkTo != "" {
@@ -585,7 +600,13 @@ func c03Run(c *core.Ctx, l c03Layout) {
 	}
 	c.Eval()
 	c.Trans(1)
-	args := append([]string{"-f", "json"}, l.Args...)
+	args := []string{"-f", "json"}
+	for _, a := range l.Args {
+		if a != "-P" && l.Subdir != "" {
+			a = l.Subdir + "/" + a
+		}
+		args = append(args, a)
+	}
 	so, se, code, err := runTool(dir, "bkl", args...)
 	wit := l.Note + " :: " + core.JSON(l)
 	if err != nil {
